@@ -55,7 +55,7 @@ INFO = {
  ('2','C07','m1'): ("AsyncFunctionQueue::stop takes abort.write() first and keeps it while taking the queue mutex (the worker takes them in the other order): abort() from another thread while the worker cycles through its queue or is being woken by a post", []),
  ('2','C07','m2'): ("ref_count keeps its `connected` flag write-locked across the connect: synchronous source below ref_count, the only subscriber leaves during the emission (count 0) and a re-subscribe from the same callback chain brings it back to 1", []),
  ('3','C03','m1'): ("StreamController serial = unscribers.len(): flat_map with three overlapping hot inners ending oldest-first (outer a, outer b, inner A completes, outer c, outer completes, inner B completes -> C still live but downstream completed)", []),
- ('3','C03','m2'): ("amb forwards every error without the is_win check: a source W signals first, then a different, so far silent source L raises an error", ['C04']),
+ ('3','C03','m2'): ("amb forwards every error without the is_win check: a source W signals first, then a different, so far silent source L raises an error", []),
  ('3','C04','m1'): ("on_error_resume_next forwards the source's error when the fallback observable fails with a different payload", []),
  ('3','C04','m2'): ("Subject::error notifies before it clears the observer map: a plain Subject feeds retry / retry_when / on_error_resume_next, the subject errors while a retry is still allowed (the resubscription inside the notification is wiped) and emits again afterwards", ['C10']),
  ('3','C05','m1'): ("Drop for Using returns early while the thread is panicking: the scope owning the guard is left by a panic that is caught further up", []),
